@@ -244,6 +244,87 @@ def enabled_events(tracks, w, kinds=None):
     return ev
 
 
+def primitive_events(tracks, w):
+    """Primitive (BasicAction) alphabet restricted to the documented preconditions."""
+    g = tracks.graph
+    nodes = sorted(int(n) for n in g.nodes)
+    times = node_times(tracks)
+    ev = []
+    nid = free_id(tracks)
+    nxt_t = int(tracks.get_next_track_id())
+    nxt_l = int(tracks.get_next_lineage_id())
+    for t in range(worlds.T):
+        pix = _block_bg(tracks, t) if w["seg"] else None
+        if w["seg"] and pix is None:
+            continue
+        ev.append(("p_add_node", nid, t, nxt_t, nxt_l, pix))
+    for n in nodes:
+        if g.in_degree(n) == 0 and g.out_degree(n) == 0:
+            ev.append(("p_del_node", n))
+    for u in nodes:
+        for v in nodes:
+            if u != v and times[u] < times[v] and not g.has_edge(u, v) and g.in_degree(v) == 0 and g.out_degree(u) < 2:
+                ev.append(("p_add_edge", u, v))
+    for u, v in sorted(g.edges):
+        ev.append(("p_del_edge", int(u), int(v)))
+    for n in nodes[:3]:
+        if w["custom"]:
+            ev.append(("p_set_attr", n, "score", 4.5))
+        ev.append(("p_set_attr", n, "note", 1.0))
+        ev.append(("p_track", n, nxt_t, nxt_l))
+        ev.append(("p_track", n, nxt_t, None))
+    if w["seg"]:
+        for n in nodes:
+            t = times[n]
+            own = _pix_to_json(_frame_pixels(tracks, t, n))
+            if len(own[0]) >= 2:
+                ev.append(("p_seg", n, t, [[a[0]] for a in own], False))
+            bg = _block_bg(tracks, t)
+            if bg is not None:
+                ev.append(("p_seg", n, t, bg, True))
+    return ev
+
+
+def make_primitive(tracks, w, ev):
+    """construct (= apply) the primitive action of a p_* event"""
+    from funtracks.actions import (
+        AddEdge, AddNode, DeleteEdge, DeleteNode, UpdateNodeAttrs, UpdateNodeSeg, UpdateTrackIDs,
+    )
+    k = ev[0]
+    f = tracks.features
+    if k == "p_add_node":
+        _, nid, t, tid, lid, pix = ev
+        attrs = {f.time_key: t, f.tracklet_key: tid}
+        if f.lineage_key is not None:
+            attrs[f.lineage_key] = lid
+        pixels = None
+        if w["seg"] and pix is not None:
+            pixels = (np.full(len(pix[0]), t, dtype=np.int64), *[np.array(a, dtype=np.int64) for a in pix])
+        else:
+            p = new_pos(w, nid, t)
+            if isinstance(f.position_key, list):
+                for kk, v in zip(f.position_key, p):
+                    attrs[kk] = v
+            else:
+                attrs[f.position_key] = p
+        return AddNode(tracks, nid, attrs, pixels)
+    if k == "p_del_node":
+        return DeleteNode(tracks, ev[1])
+    if k == "p_add_edge":
+        return AddEdge(tracks, (ev[1], ev[2]))
+    if k == "p_del_edge":
+        return DeleteEdge(tracks, (ev[1], ev[2]))
+    if k == "p_set_attr":
+        return UpdateNodeAttrs(tracks, ev[1], {ev[2]: ev[3]})
+    if k == "p_track":
+        return UpdateTrackIDs(tracks, ev[1], ev[2], ev[3])
+    if k == "p_seg":
+        _, n, t, pix, added = ev
+        pixels = (np.full(len(pix[0]), t, dtype=np.int64), *[np.array(a, dtype=np.int64) for a in pix])
+        return UpdateNodeSeg(tracks, n, pixels, added=added)
+    raise RuntimeError(f"unknown primitive {ev!r}")
+
+
 # ---------------------------------------------------------------------------
 # driver
 
@@ -329,6 +410,8 @@ def apply_event(tracks, w, ev, restore_on_refusal=True) -> Outcome:
             return tracks.undo()
         if kind == "redo":
             return tracks.redo()
+        if kind.startswith("p_"):
+            return make_primitive(tracks, w, ev)
         if kind == "enable":
             return tracks.enable_features(list(ev[1]))
         if kind == "disable":
